@@ -16,6 +16,8 @@ def check(ctx):
     S.rule_stale_table(ctx, "C05.T1", rr)
     ctx.notes["exhaustive"] = True
     S.rule_order_only(ctx, "C05.T1", rr)
+    from .c18 import rule_normaliser_frames
+    rule_normaliser_frames(ctx, "C05.T1")
     W.rule_edge_effect_table(ctx, "C05.W2", rr, rid_fresh="C05.W1")
     W.rule_two_entry_chains(ctx, "C05.W2", rr)
     W.rule_snapshot_before_mutation(ctx, "C05.W1", rr)
